@@ -544,6 +544,10 @@ impl<S: Storage> Builder<S> {
             .register(id, span.clone(), output_row_counter.clone());
 
         let (tx, rx) = async_broadcast::broadcast(16);
+        // Deactivate the initial receiver before the task can run (it may start at once on
+        // another worker thread): what it sends before the first subscriber is activated would
+        // be consumed by nobody and lost. Without an active receiver `broadcast` waits.
+        let rx = rx.deactivate();
         let tx = PanicGuard(tx);
         #[cfg(risinglight_verif)]
         let verif_name = format!("{id}.{name}");
@@ -573,7 +577,7 @@ impl<S: Storage> Builder<S> {
         crate::verif::task_spawned(handle.id(), &format!("{id}"));
 
         StreamSubscriber {
-            rx: rx.deactivate(),
+            rx,
             handle: Arc::new(AbortOnDropHandle(handle)),
         }
     }
